@@ -302,10 +302,10 @@ func (n *c13Net) SetStreamHandler(h network.StreamHandler) {
 func (n *c13Net) NewStream(context.Context, peer.ID) (network.Stream, error) {
 	return nil, errors.New("c13: the fake network does not open streams by peer")
 }
-func (n *c13Net) Listen(...ma.Multiaddr) error                        { return nil }
-func (n *c13Net) ListenAddresses() []ma.Multiaddr                     { return n.listen }
-func (n *c13Net) InterfaceListenAddresses() ([]ma.Multiaddr, error)   { return n.listen, nil }
-func (n *c13Net) ResourceManager() network.ResourceManager            { return &network.NullResourceManager{} }
+func (n *c13Net) Listen(...ma.Multiaddr) error                      { return nil }
+func (n *c13Net) ListenAddresses() []ma.Multiaddr                   { return n.listen }
+func (n *c13Net) InterfaceListenAddresses() ([]ma.Multiaddr, error) { return n.listen, nil }
+func (n *c13Net) ResourceManager() network.ResourceManager          { return &network.NullResourceManager{} }
 func (n *c13Net) notifiees() []network.Notifiee {
 	n.mu.Lock()
 	defer n.mu.Unlock()
@@ -391,14 +391,14 @@ func (n *c13Net) newConn(remote peer.ID, laddr, raddr ma.Multiaddr, limited bool
 		limited: limited, dir: network.DirOutbound, script: script}
 }
 
-func (c *c13Conn) Close() error                              { c.net.remove(c); return nil }
+func (c *c13Conn) Close() error                               { c.net.remove(c); return nil }
 func (c *c13Conn) CloseWithError(network.ConnErrorCode) error { return c.Close() }
-func (c *c13Conn) LocalPeer() peer.ID                        { return c.local }
-func (c *c13Conn) RemotePeer() peer.ID                       { return c.remote }
-func (c *c13Conn) RemotePublicKey() crypto.PubKey            { return nil }
-func (c *c13Conn) ConnState() network.ConnectionState        { return network.ConnectionState{} }
-func (c *c13Conn) LocalMultiaddr() ma.Multiaddr              { return c.laddr }
-func (c *c13Conn) RemoteMultiaddr() ma.Multiaddr             { return c.raddr }
+func (c *c13Conn) LocalPeer() peer.ID                         { return c.local }
+func (c *c13Conn) RemotePeer() peer.ID                        { return c.remote }
+func (c *c13Conn) RemotePublicKey() crypto.PubKey             { return nil }
+func (c *c13Conn) ConnState() network.ConnectionState         { return network.ConnectionState{} }
+func (c *c13Conn) LocalMultiaddr() ma.Multiaddr               { return c.laddr }
+func (c *c13Conn) RemoteMultiaddr() ma.Multiaddr              { return c.raddr }
 func (c *c13Conn) Stat() network.ConnStats {
 	return network.ConnStats{Stats: network.Stats{Direction: c.dir, Limited: c.limited}}
 }
